@@ -11,6 +11,7 @@ import XrsVerif.Proofs.ILViewshedInsProg
 import XrsVerif.Proofs.ILViewshedDel
 import XrsVerif.Proofs.ILViewshedLift
 import XrsVerif.Proofs.ILViewshedFixOrder
+import XrsVerif.Proofs.ILViewshedDelRefines
 import Mathlib.Tactic.Positivity
 /-
   C05 -- viewshed marks a cell visible exactly when the line-of-sight model says so.
@@ -943,23 +944,52 @@ theorem generated_insert_is_model_insert (s : State (NV α)) (fuel n m : Nat) (h
   rw [hreb.toList]
   exact insCore_toList nn t0 k
 
-/-- **the generated `_delete_from_tree`, descent only** (PARTIAL: the splice, the loops L1 / L2 with the recomputations
-    F1 / C of the stored maxima and the colour fixup -- `ILVs.delRest` -- are not covered): a key that is not in the tree
-    makes the program stop with `ValueError` (the model's `delCore = none`); a key that is in the tree makes it continue
-    with `z` = the node found and `y` = the node the model splices out: `z` itself when it has a NIL child, else the
-    leftmost node of its right subtree -/
-theorem generated_delete_descent (s : State F) (fuel n : Nat) (hv : VS s n) (hrun : s.ctl = .run) (sh : Sh)
+/-- **the generated `_delete_from_tree` is the pass-form deletion with the colour fix-up**, for every number type (the
+    whole routine: search, choice of the node `y` to splice out -- `z` or its in-order successor --, the splice, loop L1,
+    the recomputation F1, the successor copy with the recomputation C, loop L2, `_rb_delete_fixup` -- all four cases,
+    both mirror images, the six inlined rotations -- and the blackening of `x`).
+    A key that is not in the tree makes the program stop with `ValueError` (the model's `delCore = none`).  A key found
+    at `(l, z, r, ctx)` in a tree that is not the single node `z` (the status structure always keeps its dummy root),
+    with a black NIL row and every colour cell `RB_RED` or `RB_BLACK`, makes it return with arrays that hold
+      `rbDelFix S (path of x) t1`  if `y` was black and its child `x` is a node,  else  `t1`,
+    where `t1 = delPassArr ..` is the tree after the four passes *as the code has them* (`ILVs.delPassT`,
+    Proofs/ILViewshedDelPass.lean: the code's operand orders, its `==` on the stored numbers, ties and NaN included),
+    well linked over the old rows without `y`, `ret0` the root row, `ret1 = y`, NIL row and colour sanity kept.
+    `rbDelFix` is a sequence of rotations and recolourings (`Rebal`, Proofs/ViewshedFix.lean), so whatever `Rebal`
+    preserves (node list, order, no overestimate, exactness of the stored maxima) is preserved from `t1`.
+    PARTIAL in one respect: that the pass form `delPassT` (with `eqv` for `==`) is the hand model's one-pass recursion
+    `del` / `delCore` over a linear order -- a statement about two model-level functions, no program involved -- is not
+    proved; `delete_preserves_of_no_tie` etc. are about `delCore`. -/
+theorem generated_delete_is_pass_form (s : State F) (fuel n : Nat) (hv : VS s n) (hrun : s.ctl = .run) (sh : Sh)
     (hL : Linked (s.ia "tree_nodes") n (-1) sh) (hN : sh.idxs.Nodup) (hroot : s.ienv "root" = sh.ptr)
-    (hf : sh.height + 1 < fuel) :
+    (hnil : nAt (s.ia "tree_nodes") (n - 1) 0 = 1) (hcol : ∀ j ∈ sh.idxs, ColV (nAt (s.ia "tree_nodes") j 0))
+    (hf : sh.height + 2 ≤ fuel) :
     ((absT (s.fa "tree_vals") (s.ia "tree_nodes") sh).contains ⟨s.fenv "key"⟩ = false →
       (Gen.IL.vsDelete.run s fuel).ctl = .err "ValueError") ∧
     (∀ (l : Sh) (z : Nat) (r : Sh) (ctx : ILVs.Ctx),
-      findZ (s.fa "tree_vals") ⟨s.fenv "key"⟩ sh [] = some (l, z, r, ctx) →
-      ∃ sD : State F, Gen.IL.vsDelete.run s fuel = exec fuel delRest sD ∧ sD.ctl = .run ∧ sD.ia = s.ia ∧ sD.fa = s.fa ∧
-        sD.ienv "z" = z ∧ sD.ienv "y" = spliceIdx l z r) := by
-  refine ⟨fun h => vsDelete_absent s fuel n hv hrun sh hL hroot (by omega) h, fun l z r ctx hfz => ?_⟩
-  obtain ⟨sD, h1, h2, h3, h4, _, h6, h7, _⟩ := vsDelete_descent_refines s fuel n hv hrun sh hL hN hroot l z r ctx hfz hf
-  exact ⟨sD, h1, h2, h3, h4, h6, h7⟩
+      findZ (s.fa "tree_vals") ⟨s.fenv "key"⟩ sh [] = some (l, z, r, ctx) → ¬ (l = .nil ∧ r = .nil ∧ ctx = []) →
+      let q := Gen.IL.vsDelete.run s fuel
+      let P := splicePos l z r ctx
+      let S : Fv F := vAt (s.fa "tree_vals") (n - 1) 7
+      let t1 := delPassArr (s.fa "tree_vals") (s.ia "tree_nodes") n P.1 P.2.1 P.2.2.1 P.2.2.2
+      P.2.1 = spliceIdx l z r ∧ q.ctl = .ret ∧ VS q n ∧
+      ∃ sh' : Sh, Linked (q.ia "tree_nodes") n (-1) sh' ∧ sh'.idxs.Nodup ∧ (P.2.1 :: sh'.idxs).Perm sh.idxs ∧
+        absT (q.fa "tree_vals") (q.ia "tree_nodes") sh' =
+          (if nAt (s.ia "tree_nodes") P.2.1 0 = 1 ∧ P.1.ptr ≠ -1 then rbDelFix S (P.2.2.1.map Fr.dir) t1 else t1) ∧
+        Rebal S t1 (absT (q.fa "tree_vals") (q.ia "tree_nodes") sh') ∧
+        q.ienv "ret0" = sh'.ptr ∧ q.ienv "ret1" = P.2.1 ∧ vAt (q.fa "tree_vals") (n - 1) 7 = S ∧
+        nAt (q.ia "tree_nodes") (n - 1) 0 = 1 ∧ (∀ j ∈ sh'.idxs, ColV (nAt (q.ia "tree_nodes") j 0))) := by
+  refine ⟨fun h => vsDelete_absent s fuel n hv hrun sh hL hroot (by omega) h, fun l z r ctx hfz hbig => ?_⟩
+  intro q P S t1
+  obtain ⟨c1, c2, sh', c3, c4, c5, c6, c7, c8, c9, c10, c11, _⟩ :=
+    vsDelete_refines s fuel n hv hrun sh hL hN hroot l z r ctx hfz hbig hnil hcol hf
+  obtain ⟨_, _, _, _, _, p3, _⟩ := splicePos_spec l z r ctx
+  have hreb : Rebal S t1 (absT (q.fa "tree_vals") (q.ia "tree_nodes") sh') := by
+    rw [c6]
+    split
+    · exact rbDelFix_rebal S _ t1
+    · exact Rebal.refl t1
+  exact ⟨p3, c1, c2, sh', c3, c4, c5, c6, hreb, c7, c8, c9, c10, c11⟩
 
 /-! non-vacuity: a concrete state holding the three-node tree of the example after `query_decides` (rows 0 = the root
     with key 2, 1 = key 1, 2 = key 3, 3 = NIL); the generated query at key 3 returns 2, the gradient of the node
@@ -1038,10 +1068,52 @@ example : rbInsert (smallestK : ℚ) ⟨4, 3, 3, 3, 0, 1, 2⟩ exTree =
   decide
 
 example [Trig ℚ] : (Gen.IL.vsDelete.run { exState with fenv := fun _ => some 7 } 4).ctl = .err "ValueError" := by
-  refine (generated_delete_descent { exState with fenv := fun _ => some 7 } 4 4 ⟨rfl, rfl, rfl, rfl, by decide⟩ rfl exShape
-    exState_holds.linked (by decide) rfl (by decide)).1 ?_
+  refine (generated_delete_is_pass_form { exState with fenv := fun _ => some 7 } 4 4 ⟨rfl, rfl, rfl, rfl, by decide⟩ rfl exShape
+    exState_holds.linked (by decide) rfl (by simp [nAt, exState, exNodes])
+    (by simp [exShape, Sh.idxs, ColV, nAt, exState, exNodes]) (by decide)).1 ?_
   simp [absT, nodeAt, vAt, nAt, exState, exVals, exNodes, exShape, Tree.contains, fv_lt]
   norm_num
+
+/-- non-vacuity of `generated_delete_is_pass_form`, no fix-up: the key 3 sits in the red leaf at row 2, which is
+    spliced out itself; the program returns the freed row 2 -/
+example [Trig ℚ] :
+    (Gen.IL.vsDelete.run { exState with fenv := fun _ => some 3 } 5).ctl = .ret ∧
+      (Gen.IL.vsDelete.run { exState with fenv := fun _ => some 3 } 5).ienv "ret1" = 2 := by
+  obtain ⟨_, h1, _, _, _, _, _, _, _, _, h2, _⟩ := (generated_delete_is_pass_form { exState with fenv := fun _ => some 3 } 5 4
+    ⟨rfl, rfl, rfl, rfl, by decide⟩ rfl exShape exState_holds.linked (by decide) rfl (by simp [nAt, exState, exNodes])
+    (by simp [exShape, Sh.idxs, ColV, nAt, exState, exNodes]) (by decide)).2 .nil 2 .nil [.R (.node .nil 1 .nil) 0]
+    (by
+      simp [findZ, vAt, exState, exVals, exShape, fv_lt]
+      norm_num) (by simp)
+  exact ⟨h1, h2⟩
+
+/-- a four-node tree in six rows (row 4 free, row 5 = NIL): black root 2, black children 1 and 3, the red leaf 4 below 3 -/
+def exVals6 : List (NV ℚ) :=
+  ([2, 1, 1, 1, 0, 1, 2, 3,   1, 2, 2, 2, 0, 1, 2, 2,   3, 0, 0, 0, 0, 1, 2, 3,   4, 3, 3, 3, 0, 1, 2, 3,
+    0, 0, 0, 0, 0, 0, 0, 0,   0, 0, 0, 0, 0, 0, 0, -10000000000000000000000] : List ℚ).map some
+def exNodes6 : List Int := [1, 1, 2, -1,   1, -1, -1, 0,   1, -1, 3, 0,   0, -1, -1, 2,   0, 0, 0, 0,   1, -1, -1, -1]
+def exStateDel [Trig ℚ] : State (NV ℚ) :=
+  { State.empty with
+    fa := fun a => if a = "tree_vals" then exVals6 else [],
+    ia := fun a => if a = "tree_nodes" then exNodes6 else [],
+    shp := fun a => if a = "tree_vals" then [6, 8] else if a = "tree_nodes" then [6, 4] else [],
+    ienv := fun _ => 0,
+    fenv := fun _ => some 3 }
+
+/-- non-vacuity with the fix-up: the key 3 sits in the black node at row 2 whose only child is the red leaf at row 3;
+    row 2 is spliced out, `_rb_delete_fixup` is called with `x` = row 3 (and blackens it) -/
+example [Trig ℚ] :
+    (Gen.IL.vsDelete.run exStateDel 5).ctl = .ret ∧ (Gen.IL.vsDelete.run exStateDel 5).ienv "ret1" = 2 ∧
+      nAt (exStateDel.ia "tree_nodes") (splicePos .nil 2 (.node .nil 3 .nil) [.R (.node .nil 1 .nil) 0]).2.1 0 = 1 ∧
+      (splicePos .nil 2 (.node .nil 3 .nil) [.R (.node .nil 1 .nil) 0]).1.ptr ≠ -1 := by
+  obtain ⟨_, h1, _, _, _, _, _, _, _, _, h2, _⟩ := (generated_delete_is_pass_form exStateDel 5 6
+    ⟨rfl, rfl, rfl, rfl, by decide⟩ rfl (.node (.node .nil 1 .nil) 0 (.node .nil 2 (.node .nil 3 .nil)))
+    (by simp [Linked, nAt, exStateDel, exNodes6, Sh.ptr]) (by decide) rfl (by simp [nAt, exStateDel, exNodes6])
+    (by simp [Sh.idxs, ColV, nAt, exStateDel, exNodes6]) (by decide)).2 .nil 2 (.node .nil 3 .nil) [.R (.node .nil 1 .nil) 0]
+    (by
+      simp [findZ, vAt, exStateDel, exVals6, fv_lt]
+      norm_num) (by simp)
+  exact ⟨h1, h2, by simp [splicePos, nAt, exStateDel, exNodes6], by simp [splicePos, Sh.ptr]⟩
 
 example [Trig ℚ] :
     absT ((Gen.IL.vsLeftRotate.run exState 0).fa "tree_vals") ((Gen.IL.vsLeftRotate.run exState 0).ia "tree_nodes")
